@@ -183,7 +183,10 @@ def byz_response(g, mid, kind, code=None, notice=False):
     a = server_args(g, m, mid, code, notice)
     if kind == "ExtendedResponse" and not notice and a.get("name") == NOTICE_OID:
         a["name"] = None
-    return expected_message(m, a, mid)
+    msg = expected_message(m, a, mid)
+    if kind == "ExtendedResponse" and msg.get("name") is not None and g.r.random() < 0.3:
+        msg["ms_adts"] = True  # Active Directory style: responseName at the envelope level
+    return msg
 
 
 def client_id_class_pick(r, model, cls):
